@@ -797,6 +797,9 @@ func (c *ChannelArbitrator) relaunchResolvers(commitSet *CommitSet,
 	log.Infof("ChannelArbitrator(%v): relaunching %v contract "+
 		"resolvers", c.cfg.ChanPoint, len(unresolvedContracts))
 
+	// launchable collects the resolvers that we are able to relaunch.
+	launchable := make([]ContractResolver, 0, len(unresolvedContracts)+1)
+
 	for i := range unresolvedContracts {
 		resolver := unresolvedContracts[i]
 
@@ -811,19 +814,27 @@ func (c *ChannelArbitrator) relaunchResolvers(commitSet *CommitSet,
 			)
 		}
 
-		unresolvedContracts[i] = resolver
-
 		htlcResolver, ok := resolver.(htlcContractResolver)
 		if !ok {
+			launchable = append(launchable, resolver)
 			continue
 		}
 
+		// Without the htlc we can't supplement the resolver, and it
+		// must not act on incomplete data. Similar to what we do when
+		// the resolvers are first created, we leave out the one
+		// contract we can't handle, rather than holding up all the
+		// other contracts of this channel (its commitment output among
+		// them). The contract stays unresolved in the log.
 		htlcPoint := htlcResolver.HtlcPoint()
 		htlc, ok := htlcMap[htlcPoint]
 		if !ok {
-			return fmt.Errorf(
-				"htlc resolver %T unavailable", resolver,
-			)
+			log.Errorf("ChannelArbitrator(%v): htlc resolver %T "+
+				"unavailable: no htlc found for %v, not "+
+				"relaunching it", c.cfg.ChanPoint, resolver,
+				htlcPoint)
+
+			continue
 		}
 
 		htlcResolver.Supplement(*htlc)
@@ -835,7 +846,10 @@ func (c *ChannelArbitrator) relaunchResolvers(commitSet *CommitSet,
 			deadline := c.cfg.FindOutgoingHTLCDeadline(*htlc)
 			htlcResolver.SupplementDeadline(deadline)
 		}
+
+		launchable = append(launchable, resolver)
 	}
+	unresolvedContracts = launchable
 
 	// The anchor resolver is stateless and can always be re-instantiated.
 	if contractResolutions.AnchorResolution != nil {
